@@ -192,6 +192,32 @@ def run(prog, chk):
                             ok = True
                             why = 'transferred to call sites'
                 chk.ob('R13.3', f, n.get('ln', f.ln), ok, '%s[%s]: %s' % (container, SX.show(n['i'])[:30], why), key='subscript:%s:%s' % (f.short, SX.show(n['i'])[:24]))
+    # a type parameter is not in scope inside its own bound: `class Box<T extends T>` must find no T when the bound is converted —
+    # otherwise the bound of T is T, and every relation that resolves a parameter through its bound (assignability, conversion
+    # cost) recurses without end.  In each loop over declared type parameters that adds them to the analyser's scope of type
+    # parameters, the conversion of the parameter's bound precedes the addition.
+    nb = 0
+    for f in prog.functions:
+        if not f.body or not f.file.endswith('semantic_analyser.cpp'):
+            continue
+        for lp in SX.walk(f.body, into_lambdas=False):
+            if lp['k'] != 'forrange' or 'typeParameters' not in SX.show(lp.get('range')):
+                continue
+            g = prog.cfg(f)
+            inloop = {id(x) for x in SX.walk(lp['body'], into_lambdas=False)}
+            pushes = [c for c in g.calls(lambda e: id(e) in inloop and SX.append_target(e) is not None and SX.is_this_member(SX.strip(SX.append_target(e)))
+                                         and 'TypeParam' in (SX.strip(SX.append_target(e)).get('t') or ''))]
+            convs = [c for c in g.calls(lambda e: id(e) in inloop and e['k'] in ('call', 'mcall') and SX.short(SX.callee(e) or '') == 'typeFromAst'
+                                        and any(y.get('k') == 'member' and y.get('name') == 'bound' for y in SX.walk(e)))]
+            if not pushes or not convs:
+                continue
+            nb += 1
+            heads = [h for h in g.nodes if h.kind == 'loophead' and h.e is lp]
+            bad = [c for c in convs for p_ in pushes if heads and c.id in g.reachable([p_], avoid=heads)]
+            chk.ob('R13.2', f, (bad[0].ln if bad else lp.get('ln')) or f.ln, not bad,
+                   'the bound of a type parameter is converted before the parameter enters the scope of type parameters (a parameter visible in its own bound makes '
+                   '`T extends T` its own bound: unbounded recursion in the type relations)', key='typeparam-bound-scope:%s' % f.short)
+    chk.count('type-parameter registration loops', nb, 1)
     # the analyser's vector subscripts
     chk.count('analyser vector subscripts', analyser_subscripts(prog, chk), 20)
     # lexer advance() call sites: known not at end
